@@ -188,6 +188,18 @@ CLAIMED = {
         note="Coq kernel; stdlib real axioms; fastmath kernels to 1e-9; pint factors as numbers; elliptic integrals unavailable.",
         technique="Coq proofs over R (sums, linearity) + vm_compute/PrimFloat correspondence + SI direct-sum oracle",
         design="7/C20"),
+    "C08": dict(
+        text="Coq theorems: two descriptions (unit system + numbers) of the same physical device, field and currents give the "
+             "same dimensionless link exponents, terminal boundary densities and screening kernel weights; K0 (output scale) is "
+             "unit independent; the midpoint-rule phase around ANY triangle in a uniform field is exactly B x signed area, i.e. "
+             "2 pi flux / Phi_0 in the solver's units. Correspondence: A_scale, J_scale and the screening area factor of real "
+             "TDGLSolver instances vs Model.Units for all 27 unit triples and random (xi, lambda, d). Oracle: per-triangle sum of "
+             "the implementation's link exponents vs 2 pi flux/Phi_0; the same physical problem run in three unit systems "
+             "(one shared dimensionless mesh) agrees frame by frame and in physical output units, screening on and off.",
+        note="Coq kernel; stdlib real axioms; 'to rounding' measured (1e-8 / 1e-6 with screening), not proved; pint constants "
+             "passed as numbers; the induction over steps is the step model of C01/C02/C13 (function of the dimensionless inputs).",
+        technique="Coq field-algebra proofs + vm_compute correspondence of scale factors + unit-twin runs",
+        design="7/C08"),
 }
 
 PENDING_REASON = "check not built yet in this session (planned, see DESIGN.md section 7); not claimed until it runs"
